@@ -230,7 +230,7 @@ func c07(c *core.Ctx) {
 				n++
 				ok := false
 				var pushed ssa.CallInstruction
-				for _, p := range core.CallsIn(fn, push) {
+				for _, p := range performsCalls(fn, push, 2) {
 					if core.Dominates(p, ci) {
 						ok = true
 						pushed = p
@@ -244,7 +244,7 @@ func c07(c *core.Ctx) {
 				}
 				c.Check(key, "journal-before-write", ok, ci.Pos(), "SafeAccount.%s must push a change log before it calls the raw mutator %s", f.Name(), o.Name())
 				// the pushed log is made by a constructor
-				if pushed != nil {
+				if pushed != nil && core.SameFamily(core.CalleeObj(pushed), push) {
 					made := false
 					for v := range core.Slice(pushed.Common().Args[len(pushed.Common().Args)-1]) {
 						if call, isCall := v.(*ssa.Call); isCall {
